@@ -25,6 +25,9 @@ func (p *Pubrec) String() string {
 // NewPubrecPacket returns a Pubrec instance by the given FixHeader and io.Reader.
 func NewPubrecPacket(fh *FixHeader, version Version, r io.Reader) (*Pubrec, error) {
 	p := &Pubrec{FixHeader: fh, Version: version}
+	if fh.Flags != FlagReserved { //[MQTT-2.2.2-2]
+		return nil, codes.ErrMalformed
+	}
 	err := p.Unpack(r)
 	if err != nil {
 		return nil, err
